@@ -245,11 +245,10 @@ func (e *engineInst) respond(seq string, id string, status int) (string, bool, i
 	e.rec.mu.Lock()
 	e.rec.tags = nil
 	e.rec.mu.Unlock()
-	api := streamtypes.NewAPIStream("c17", publictypes.StreamTypeResponse, engineShare)
-	api.SetResponse(streamtypes.NewResponse(lunarMessages.OnResponse{
+	api := streamtypes.NewResponseAPIStream(lunarMessages.OnResponse{
 		ID: id, SequenceID: seq, Method: "GET", URL: "c17.example.com/x", Status: status,
 		Headers: map[string]string{},
-	}))
+	}, engineShare)
 	acts := &streamconfig.StreamActions{Request: &streamconfig.RequestStream{}, Response: &streamconfig.ResponseStream{}}
 	clk := contextmanager.Get().GetClock()
 	t0 := clk.Now()
